@@ -243,12 +243,15 @@ Lemma c26_nonvacuous_lemma :
      RCtl (Some (4, 9)); RBool true; RCtl (Some (6, 1))].
 Proof. repeat split; vm_compute; reflexivity. Qed.
 
-(* a record one byte longer than MaxMsgLen is accepted by put and overruns get's buffer *)
+(* a record one byte longer than MaxMsgLen: refused by put since a3cf082 (a refused put: answer
+   false, nothing stored, the get finds nothing); before, put accepted it and get overran its
+   buffer (None); the memory persister has no limit *)
 Definition big_rec : list byte := repeat 65 (N.to_nat 8193).
-Definition overlong_ops : list op := [OPut 1 big_rec; OGet 1].
-Lemma c26_overlong_refuted_lemma :
+Definition overlong_ops : list op := [OPut 1 big_rec; OGet 1; OPut 1 [66]; OGet 1].
+Lemma c26_overlong_orig_refuted_lemma :
   zero_free overlong_ops = true /\ reopen_safe overlong_ops = true /\ ops_wf overlong_ops = false /\
-  file_outputs overlong_ops = None /\
-  spec_outputs overlong_ops = [RBool true; RBytes (Some big_rec)] /\
+  file_outputs_orig overlong_ops = None /\
+  file_outputs overlong_ops = Some [RBool false; RBytes None; RBool true; RBytes (Some [66])] /\
+  c26_ok_file overlong_ops (file_outputs overlong_ops) = true /\
   mem_outputs overlong_ops = Some (spec_outputs overlong_ops).
 Proof. repeat split; vm_compute; reflexivity. Qed.
